@@ -120,7 +120,7 @@ def check(an: Analysis) -> None:
                 return present if isinstance(e.ops[0], ast.In) else (not present)
             if isinstance(e, ast.Call) and isinstance(e.func, ast.Attribute) and e.func.attr == "get" and is_state_map(e.func.value):
                 if present:
-                    return _OBJ
+                    return _OBJ_FALSY if present == "falsy" else _OBJ
                 if len(e.args) < 2:
                     return None
                 dflt = unwrap(e.args[1])
@@ -148,7 +148,7 @@ def check(an: Analysis) -> None:
 
     ctor_nodes = [n for n in g.nodes if n.kind == "call" and is_name(n.ast.func, p_type)]  # type: ignore[union-attr]
     rets = [n for n in g.nodes if n.kind == "return"]
-    for label, (present, has_default) in {"present": (True, False), "present+default": (True, True), "absent+default": (False, True), "absent": (False, False)}.items():
+    for label, (present, has_default) in {"present": (True, False), "present+default": (True, True), "present, an instance whose truth value is False": ("falsy", False), "absent+default": (False, True), "absent": (False, False)}.items():
         sc0 = scenario(g, env(present, has_default))
 
         def sc(a, b, lab, sc0=sc0, present=present):
@@ -287,7 +287,7 @@ def check(an: Analysis) -> None:
         cn = next((n for n in gc.nodes if n.kind == "call" and n.ast is c), None)
         for h in [t for t, lab in (cn.succ if cn is not None else []) if lab == "exc" and t.kind == "handler"]:
             caught = [hc for hc in gc.handler_classes(h.ast) if exc_is_sub("MissingState", hc)]  # type: ignore[arg-type]
-            raised_ok = all(kind == "reraise" for kind, _n, _p in classify_handler(gc, h.ast))  # type: ignore[arg-type]
+            raised_ok = all(kind in ("reraise", "reraise-same") for kind, _n, _p in classify_handler(gc, h.ast))  # type: ignore[arg-type]
             if caught and not raised_ok:
                 ob.fail(cur, h.ast, f"the handler around the lookup catches {caught}, which MissingState is a subclass of in this tree: a missing-state error inside a scope is reported as something else (MissingContext)")
 
@@ -474,6 +474,16 @@ def _is_type_of(e: ast.AST | None, name: str) -> bool:
 
 
 _OBJ = object()
+
+
+class _Falsy:
+    """a stored State instance whose truth value is False (defines __len__ / __bool__)"""
+
+    def __bool__(self) -> bool:
+        return False
+
+
+_OBJ_FALSY = _Falsy()
 
 
 def liveness(fixtures: str) -> list[dict]:
